@@ -99,6 +99,7 @@ def spec_read(store, param, it_arg, vars_arg, rl):
         for iit in its:
             names |= {n for n in store.names_at(d, iit, rl) if n != 'it'}
     names.add('t')
+    names.discard('it')          # the it column is always the sorted distinct requested iterations
     out = {'it': its}
     for n in names:
         out[n] = [store.get(d, iit, n, rl) for iit in its]
@@ -132,8 +133,18 @@ def scenario_list(tier):
     scen.append(dict(nd=2, n_save=1, vsel=[], rl_s=0, rl_r=0, slash=True, none_entry=True))
     scen.append(dict(nd=2, n_save=2, vsel=['a'], rl_s=0, rl_r=0, slash=True, two_saves=True))
     scen.append(dict(nd=2, n_save=2, vsel=[], rl_s=0, rl_r=0, slash=True, et_param=True))
+    scen.append(dict(nd=2, n_save=2, vsel=[], rl_s=0, rl_r=0, slash=True, cross_none=True))
+    scen.append(dict(nd=2, n_save=2, vsel=['a', 'b'], rl_s=1, rl_r=1, slash=False, cross_none=True))
+    # requests that name the bookkeeping columns themselves, or a variable twice
+    scen.append(dict(nd=2, n_save=2, vsel=[], rl_s=0, rl_r=0, slash=True, read_vars=(['t'], ['a', 't'], ['a', 'a'])))
+    scen.append(dict(nd=2, n_save=1, vsel=['a'], rl_s=0, rl_r=0, slash=False, read_vars=(['it'], ['it', 'a'], ['b', 't'])))
     if tier != 'quick':
-        scen.append(dict(nd=3, n_save=3, vsel=['b'], rl_s=1, rl_r=1, slash=False, two_saves=True, none_col=True))
+        # three saved iterations / two successive saves on three-iteration dictionaries (1428 / 822 paths; sized to finish:
+        # three iterations saved twice exceeds 4000 paths)
+        scen.append(dict(nd=3, n_save=3, vsel=['b'], rl_s=1, rl_r=1, slash=False, none_col=True))
+        scen.append(dict(nd=3, n_save=2, vsel=['b'], rl_s=1, rl_r=1, slash=False, two_saves=True, none_col=True))
+        scen.append(dict(nd=3, n_save=3, vsel=[], rl_s=0, rl_r=0, slash=True))
+        scen.append(dict(nd=3, n_save=2, vsel=['a', 'b'], rl_s=0, rl_r=0, slash=True, cross_none=True))
     return scen
 
 
@@ -156,6 +167,9 @@ def run_scenario(sc, funcs_factory):
             data['b'] = None
         if sc.get('none_entry'):
             data['a'][0] = None
+        if sc.get('cross_none'):          # ragged: each variable missing at a different iteration
+            data['a'][0] = None
+            data['b'][nd - 1] = None
         if sc.get('et_param'):
             param = {'simulation': 'ET', 'simpath': '/sims/', 'simname': 'run'}
         else:
@@ -208,7 +222,7 @@ def run_scenario(sc, funcs_factory):
         rits = [Z.int(f'r{k}') for k in range(nr)]
         for r_ in rits:
             c.assume(r_.e >= 0)
-        for rv in ([], ['a']):
+        for rv in ([], ['a']) + tuple(sc.get('read_vars', ())):
             try:
                 reader = fn['read_aurel_data'] if 'simulation' in param else fn['read_data']
                 res = reader(param, it=list(rits), vars=list(rv), rl=sc['rl_r'])
@@ -270,6 +284,41 @@ def native_replay(o=None):
     import aurel
     lines, bad = [], False
     rng = random.Random(0)
+    # ragged dictionaries read back with vars=[] (discovery of variables over several files)
+    for nd in (2, 3, 4):
+        d = tempfile.mkdtemp(prefix='c13_')
+        try:
+            its = list(range(nd))
+            cols = {'a': [None if i % 2 == 0 else np.full((2, 2), 10.0 * i + 1) for i in its],
+                    'b': [np.full((2,), 10.0 * i + 2) if i % 2 == 0 else None for i in its]}
+            if nd == 4:
+                cols['c'] = [np.full((3,), 10.0 * i + 3) if i == 3 else None for i in its]
+            data = {'it': list(its), 't': [float(i) for i in its], **cols}
+            aurel.save_data({'datapath': d}, data, it=list(its))
+            for want in ([0, 1], its, its[1:], its[::-1]):
+                res = aurel.read_data({'datapath': d}, it=list(want), vars=[])
+                names = {k for k in cols if any(cols[k][i] is not None for i in want)}
+                if set(res) != names | {'it', 't'}:
+                    lines.append(f'ragged dictionary (a saved at odd, b at even iterations): read_data(it={want}, vars=[]) returns variables {sorted(res)}, '
+                                 f'expected {sorted(names | {"it", "t"})}')
+                    bad = True
+                    break
+                for k in names:
+                    for j, i in enumerate(sorted(set(want))):
+                        exp, got = cols[k][i], res[k][j]
+                        if (exp is None) != (got is None) or (exp is not None and not np.array_equal(exp, got)):
+                            lines.append(f'ragged dictionary: read_data(it={want}, vars=[]): {k} at it={i} is {got!r}, saved {exp!r}')
+                            bad = True
+                            break
+                if bad:
+                    break
+        except Exception as e:
+            lines.append(f'ragged dictionary: raised {type(e).__name__}: {e}')
+            bad = True
+        finally:
+            shutil.rmtree(d, ignore_errors=True)
+        if bad:
+            return bad, '\n'.join(lines)
     for trial in range(200):
         d = tempfile.mkdtemp(prefix='c13_')
         try:
@@ -297,6 +346,18 @@ def native_replay(o=None):
                                  f'a at it={i} is {None if got is None else float(np.ravel(got)[0])}, expected {exp}')
                     bad = True
                     break
+            if not bad:
+                rv = rng.choice([['t'], ['a', 't'], ['it'], ['it', 'a'], ['a', 'a'], ['b', 't']])
+                want = sorted(set(its)) + [max(its) + 3]          # one iteration that was never saved
+                r2 = aurel.read_data(param, it=list(want), vars=list(rv), rl=rl_r)
+                lens = {k: len(v) for k, v in r2.items()}
+                if any(n != len(want) for n in lens.values()):
+                    lines.append(f'saved it={sel}; read_data(it={want}, vars={rv}, rl={rl_r}) returns columns of lengths {lens}: '
+                                 f'not one entry per requested iteration ({len(want)})')
+                    bad = True
+                elif [None if x is None else int(x) for x in r2['it']] != want:
+                    lines.append(f'saved it={sel}; read_data(it={want}, vars={rv}, rl={rl_r}) returns it column {list(r2["it"])}, requested {want}')
+                    bad = True
             if not bad and rl_r != rl_s:
                 allv = aurel.read_data(param, it=list(sel), vars=[], rl=rl_r)
                 extra = [k for k in allv if k not in ('it', 't')]
@@ -326,6 +387,7 @@ def run(R):
     R.trust('h5py contract as modelled in engine/fsmodel.py: file = map name -> array; create_dataset on an existing name / with data=None raises; os.path.exists reflects created files')
     R.trust('requires: the iteration values of data["it"] are distinct; the iterations passed to save_data are among them')
     scen = scenario_list(R.tier)
+    scen.sort(key=lambda sc: -(sc['nd'] * 10 + sc['n_save'] * 3 + (5 if sc.get('two_saves') else 0)))
     R.bounded.append(dict(function='save_data / read_aurel_data / read_data',
                           bound=f'{len(scen)} shapes: data with <= {2 if R.tier == "quick" else 3} iterations, <= 3 saved iterations, 2 read iterations, variable subsets of {{a,b}}, levels in {{0,1,10}}, datapath with/without trailing slash, ET-style param, None column / None entry, up to 2 successive saves; iteration VALUES and array CONTENTS are symbolic (all values)'))
     total = {}
